@@ -7,7 +7,7 @@ import json, os, re, sys
 
 V = '/verif'
 rows = []
-for line in open(f'{V}/seeded/MATRIX.tsv'):
+for line in open(f'{V}/seeded/MATRIX.tsv', errors='replace'):
     parts = line.rstrip('\n').split('\t')
     while len(parts) < 4:
         parts.append('')
